@@ -329,6 +329,18 @@ class LoopCtx:
         self.order = 0
 
 
+ALL_INTERPS = []
+
+
+def engine_assumptions():
+    out = []
+    for I in ALL_INTERPS:
+        for a in I.assumptions:
+            if a not in out:
+                out.append(a)
+    return out
+
+
 class Interp:
     def __init__(self, facts, models=None, max_inline_depth=12):
         self.f = facts
@@ -339,6 +351,7 @@ class Interp:
         self.max_depth = max_inline_depth
         self.undecided = []        # (what, span)
         self.assumptions = []
+        ALL_INTERPS.append(self)   # the evidence lists every assumption an interpreter of this run relied on
         self.loops = []            # stack of LoopCtx
         self.opaque_counter = 0
         self.trace = []
@@ -1522,6 +1535,7 @@ class Interp:
         fcls = "⟨%s⟩" % total.key()
         self.derived_sizes[fcls] = total
         env.set(v_, SymList(self, fcls, total, mcls))
+        self.assumptions.append("list built by a push recurrence: its length 1 + (hi − lo) assumes hi >= lo (with fewer iterations the list keeps its initial element)")
         self.list_recurrences.append({"var": self.var_names.get(v_, str(v_)), "lo": lo, "hi": hi, "length": total, "class": fcls,
                                       "assumes": "hi >= lo (otherwise the list keeps its single initial element N̂, see the rule)"})
         return True
